@@ -58,6 +58,7 @@ struct Run
   int scrub = 1;
   int slowlog = 0;
   int connect = 0;
+  int templog = 0;
   std::vector<TaskSpec> tasks;
   std::map<std::pair<int, int>, std::vector<Script>> scripts;
 };
@@ -195,6 +196,8 @@ void log_sink(char level, const std::string& msg)
   sim_yield(YK_LOG);
   for (int i = 0; i < g_run.slowlog; ++i) sim_yield(YK_LOG);  // fault kind: slow log sink
 }
+
+bool log_object_is_temporary() { return g_run.templog != 0; }
 
 // ============================================================================= component hook
 static bool is_unbound(int side, int ev, int client)
@@ -730,6 +733,7 @@ static bool parse_run(const std::vector<std::string>& lines, Run& R)
     else if (kw == "SCRUB") is >> R.scrub;
     else if (kw == "SLOWLOG") is >> R.slowlog;
     else if (kw == "CONNECT") is >> R.connect;
+    else if (kw == "TEMPLOG") is >> R.templog;
     else if (kw == "TASK")
     {
       TaskSpec t;
